@@ -17,11 +17,10 @@ intervals with an adaptive partition of the whole float line (sa/ival.py, sa/box
 
 Lines are where branch cuts, signed zeros, the |z| = 1 and safe_min/safe_max region boundaries and the overflow
 handling of the algorithms are exercised; the relational guards that defeat a two-dimensional analysis (DESIGN.md §3/C01)
-degenerate on them.  The compensated logarithms (log, log2, log10, log1p in complex64) are decided by R1.1 since the interval
+degenerate on them.  The compensated logarithms (log, log2, log10, log1p) are decided by R1.1 since the interval
 evaluator encloses Veltkamp splits, Dekker product errors and 2Sum / Fast2Sum error terms by their contracts
 (sa/eft_terms.py) instead of following their cancellations.  What is NOT decided: inputs off these lines between the probes
-of R1.5; the 3-ULP bound (d is 2**-6, thorough 2**-9); what is listed in UNDECIDED (exp(i*y) is periodic; complex128 log1p
-next to |1 + z| = 1 needs correlated enclosures).
+of R1.5; the 3-ULP bound (d is 2**-6, thorough 2**-9); what is listed in UNDECIDED (exp(i*y) is periodic).
 """
 
 from __future__ import annotations
@@ -71,15 +70,14 @@ DECIDED = {
     # the compensated logarithms: decidable since the interval evaluator encloses the error-free transformations by contract (sa/eft_terms.py)
     "log": EVERY, "log2": EVERY, "log10": EVERY, "log1p": EVERY,
 }
-# log1p in complex128: next to the circle |1 + z| = 1 the sum 2x + x*x + y*y cancels to ~(1+x)**2 and plain intervals (no correlation
-# between the occurrences of x) need ~1e9 boxes
-DECIDED_TYPES = {"log1p": ("complex64",)}
+# (log1p in complex128 needs the correlated enclosure of its compensated sum: next to the circle |1 + z| = 1 the sum 2x + x*x + y*y
+# cancels to ~(1+x)**2; sa/eft_terms.cascade_summary recognises the 2Sum cascade and encloses it by the range of the exact quadratic)
+DECIDED_TYPES = {}
 # R1.2 (forward error analysis) is not applicable to compensated arithmetic: its error terms are the computation
 NO_ERR = {"log", "log1p", "log2", "log10"}
 QUICK_RAYS = {k for k in RAYS if any(k.endswith(f"2**{e}*x") for e in (-8, -1, 1, 8))}
 UNDECIDED = {
     "log, log2, log10, log1p (R1.2, R1.3)": "forward error analysis does not apply to the compensated (Dekker/2Sum) kernels; they are decided by R1.1 (value enclosure with the error-free transformations summarised by their contracts), R1.4 and R1.5",
-    "log1p[complex128] (R1.1)": "next to the circle |1 + z| = 1 the cancellation of 2x + x*x + y*y needs correlated (affine) enclosures; decided by R1.5 only",
     "exp (off the real axis)": "cos/sin of arguments beyond 2**24 change sign between adjacent floats: no box wider than a point is decidable",
 }
 DELTA = {"quick": 2.0 ** -6, "thorough": 2.0 ** -9}
@@ -139,6 +137,22 @@ def make_judge(name, line, tre, tim, var, fmt, dom, delta, exempt=None):
     from sa.eft_terms import summaries as _eft_summaries
 
     summ = _eft_summaries([tre, tim]) or None
+    # cascaded compensated sums (sum_2sum): on a line their items add up to an exact quadratic in the parameter
+    if summ is not None:
+        from sa.eft_terms import cascade_summary
+
+        consts_ = {("x" if var == "y" else "y"): float(spec[2])} if spec[0] == "axis" else {}
+        seen_, stack_ = set(), [t_ for t_ in (tre, tim) if t_ is not None]
+        while stack_:
+            t_ = stack_.pop()
+            if t_ in seen_ or t_[0] in ("sym", "const"):
+                continue
+            seen_.add(t_)
+            if t_[0] == "add" and t_ not in summ:
+                cs = cascade_summary(t_, var, consts_)
+                if cs is not None:
+                    summ[t_] = ("cascade", var, consts_, cs[0], cs[1])
+            stack_.extend(a_ for a_ in t_[1:] if isinstance(a_, tuple))
 
     def cplx(t, side, tsign=None):
         tf = t
